@@ -18,6 +18,17 @@ VERIF = Path(__file__).resolve().parent.parent
 LEAN = VERIF / "lean"
 DRIVER = LEAN / ".lake" / "build" / "bin" / "tvdriver"
 REPO = Path(os.environ.get("TENSORA_REPO", "/repo"))
+# where evidence/ and replays/ are written: /verif for every registered command; experiments against scratch
+# checkouts (seeded changes, mutation sweeps: TENSORA_REPO=<worktree>) redirect it so that they never touch
+# the evidence of the real tree
+OUT = Path(os.environ.get("VERIF_OUT", str(VERIF)))
+# experiment mode (never set by a registered command): no rebuild/audit of the Lean project, stop at the
+# first violation
+SWEEP = os.environ.get("VERIF_SWEEP") == "1"
+
+
+class FirstViolation(BaseException):
+    """raised in experiment mode to end the run at the first reported violation"""
 ALLOWED_AXIOMS = {"propext", "Classical.choice", "Quot.sound"}
 
 TRUSTED_BASE = [
@@ -328,9 +339,13 @@ class Check:
         self.violations.append(
             {"kind": "counterexample", "what": what, "case": case, "expected": expected, "got": got}
         )
+        if SWEEP:
+            raise FirstViolation()
 
     def unproved_obligation(self, obligation: str, what: str, case: dict | None = None):
         self.unproved.append({"kind": "unproved-obligation", "obligation": obligation, "what": what, "case": case})
+        if SWEEP:
+            raise FirstViolation()
 
     # --- finish -------------------------------------------------------------------------------
     def finish(self) -> int:
@@ -350,7 +365,7 @@ class Check:
         lines = []
         for fid, what in sorted(self.known_seen.items()):
             lines.append(f"KNOWN-FINDING: property={self.prop} {fid} {what}")
-        replay_dir = VERIF / "replays"
+        replay_dir = OUT / "replays"
         if self.violations or self.unproved:
             replay_dir.mkdir(exist_ok=True)
         for v in self.violations[:5]:
@@ -378,8 +393,8 @@ class Check:
             "wall_s": round(wall, 2),
             "violations": len(self.violations) + (len(self.unproved) if not self.violations else 0),
         }
-        (VERIF / "evidence").mkdir(exist_ok=True)
-        (VERIF / "evidence" / f"{self.prop}.json").write_text(json.dumps(ev, indent=1, default=str))
+        (OUT / "evidence").mkdir(parents=True, exist_ok=True)
+        (OUT / "evidence" / f"{self.prop}.json").write_text(json.dumps(ev, indent=1, default=str))
         for line in lines:
             print(line)
         print(
